@@ -34,7 +34,7 @@ void UnsatCore::printEnd(std::ostream & os) const {
 
 void NamedUnsatCore::printTerm(std::ostream & os, PTRef term) const {
     assert(termNames.contains(term));
-    os << termNames.nameForTerm(term);
+    os << Logic::protectName(termNames.nameForTerm(term), false);
 }
 
 std::vector<std::string> NamedUnsatCore::makeTermNamesImpl(vec<PTRef> const & terms) const {
